@@ -27,7 +27,9 @@ def k7pair (t : Tokens) : String :=
   -- renaming F to where the first rename has already put it short-circuits (no backend call)
   let noop := t.str "a" == "renameF" && t.str "b" == "renameF"
   let fenced := (removes && t.nat "fb" == 1) || sameSection || noop
-  s!"overlap={if ov then 1 else 0} entered={if fenced then 0 else 1} answered=2"
+  -- (what may enter the backend while the first is held also finishes while it is held: nothing a
+  --  handler does after its backend call waits for a lock the contract does not give the first)
+  s!"overlap={if ov then 1 else 0} entered={if fenced then 0 else 1} answered=2 bdone={if ov then 1 else 0}"
 
 /-- run the connection model to quiescence: fire the first enabled action not forbidden -/
 def quiesce (forbid : Act → Nat → Bool) : Nat → St → St
